@@ -121,3 +121,120 @@ func InvalidYAML(r *rand.Rand) (string, string) {
 	x := pick(r, cs)
 	return x.s, x.class
 }
+
+// YAMLTreeDoc draws a tree that the block-style emitter below can render:
+// identifier keys, simple scalars, sequences of scalars / maps.
+func YAMLTreeDoc(r *rand.Rand, depth int) *JNode {
+	o := &JNode{Kind: "obj"}
+	n := 1 + r.IntN(4)
+	keys := []string{"a", "b", "c", "name", "user", "items", "count", "id", "k1", "k2", "meta", "tags"}
+	r.Shuffle(len(keys), func(i, j int) { keys[i], keys[j] = keys[j], keys[i] })
+	for i := 0; i < n; i++ {
+		o.Keys = append(o.Keys, keys[i])
+		o.Vals = append(o.Vals, yamlTreeVal(r, depth-1, true))
+	}
+	return o
+}
+
+func yamlScalar(r *rand.Rand) *JNode {
+	switch r.IntN(6) {
+	case 0:
+		return &JNode{Kind: "num", S: pick(r, []string{"0", "1", "42", "7", "100"})}
+	case 1:
+		return &JNode{Kind: "num", S: pick(r, []string{"3.14", "0.5", "2.25"})}
+	case 2:
+		return &JNode{Kind: "bool", S: pick(r, []string{"true", "false"})}
+	case 3:
+		return &JNode{Kind: "null"}
+	default:
+		return &JNode{Kind: "str", S: pick(r, []string{"hello", "mock-user", "a b c", "x: y", "with \"q\"", "2024-01-01", "- dash", "#hash", "[TestA - 1]", "---"})}
+	}
+}
+
+func yamlTreeVal(r *rand.Rand, depth int, allowSeq bool) *JNode {
+	x := r.IntN(10)
+	switch {
+	case x < 2 && depth > 0:
+		o := &JNode{Kind: "obj"}
+		n := 1 + r.IntN(3)
+		for i := 0; i < n; i++ {
+			o.Keys = append(o.Keys, fmt.Sprintf("n%d", i))
+			o.Vals = append(o.Vals, yamlTreeVal(r, depth-1, true))
+		}
+		return o
+	case x < 4 && depth > 0 && allowSeq:
+		a := &JNode{Kind: "arr"}
+		n := 1 + r.IntN(3)
+		for i := 0; i < n; i++ {
+			a.Vals = append(a.Vals, yamlTreeVal(r, depth-1, false))
+		}
+		return a
+	default:
+		return yamlScalar(r)
+	}
+}
+
+// YAMLFromTree renders the tree in block style.
+func YAMLFromTree(n *JNode) string {
+	var sb strings.Builder
+	yamlEmit(&sb, n, 0)
+	return sb.String()
+}
+
+func yamlScalarText(n *JNode) string {
+	switch n.Kind {
+	case "str":
+		return quoteJSON(n.S)
+	case "null":
+		return "null"
+	default:
+		return n.S
+	}
+}
+
+func yamlEmit(sb *strings.Builder, n *JNode, ind int) {
+	pad := strings.Repeat(" ", ind)
+	switch n.Kind {
+	case "obj":
+		for i, k := range n.Keys {
+			v := n.Vals[i]
+			switch v.Kind {
+			case "obj":
+				sb.WriteString(pad + k + ":\n")
+				yamlEmit(sb, v, ind+2)
+			case "arr":
+				sb.WriteString(pad + k + ":\n")
+				yamlEmit(sb, v, ind+2)
+			default:
+				sb.WriteString(pad + k + ": " + yamlScalarText(v) + "\n")
+			}
+		}
+	case "arr":
+		for _, v := range n.Vals {
+			switch v.Kind {
+			case "obj":
+				var inner strings.Builder
+				yamlEmit(&inner, v, ind+2)
+				s := inner.String()
+				// first member goes on the dash line
+				sb.WriteString(pad + "- " + strings.TrimPrefix(s, strings.Repeat(" ", ind+2)))
+			default:
+				sb.WriteString(pad + "- " + yamlScalarText(v) + "\n")
+			}
+		}
+	}
+}
+
+// YAMLPath renders a path in goccy's `$.a.b[1]` syntax.
+func (p JPath) YAMLPath() string {
+	var sb strings.Builder
+	sb.WriteString("$")
+	for _, s := range p.Steps {
+		if s.IsIdx {
+			fmt.Fprintf(&sb, "[%d]", s.Index)
+		} else {
+			sb.WriteString("." + s.Key)
+		}
+	}
+	return sb.String()
+}
